@@ -32,6 +32,12 @@ FirstLogDiff(l, o) == IF \E i \in 1..Len(l) : i > Len(o) \/ l[i].tag # o[i].tag 
                                                    /\ \A j \in 1..(i - 1) : j <= Len(o) /\ l[j].tag = o[j].tag /\ l[j].v = o[j].v
                       ELSE Len(l) + 1
 
+\* what the machine did on the way (coverage, measured by TLC): kinds of unwinding - <exception>-<frame popped | clean-up code
+\* started>-<direct: nothing popped before | same: the frame popped before belongs to the same context | across: to another> - and
+\* cancellations requested through task names
+Cov(S) == { x.exc \o (IF x.fin THEN "-fin" ELSE "-pop") \o (IF x.from = "" THEN "-direct" ELSE IF x.from = x.to THEN "-same" ELSE "-across") : x \in S.cx }
+          \cup { IF k.self THEN "kill-me" ELSE "kill-other" : k \in S.kills }
+
 VARIABLE i
 Init == i = 1
 Next == i <= Len(Cases) /\ i' = i + 1
@@ -40,7 +46,8 @@ Report == i <= Len(Cases) =>
   LET c == Cases[i]
       S == Expected(c.prog, {})
       d == Diff(S, c.obs)
-  IN d # "ok" =>
+  IN /\ (Cov(S) # {} => PrintT("INFO " \o ToJson([id |-> c.id, cov |-> Cov(S)])))
+     /\ d # "ok" =>
        LET ex == Explaining(c.prog, c.obs)
            k  == FirstLogDiff(S.log, c.obs.log)
        IN PrintT("REJECT " \o ToJson([id |-> c.id, clause |-> d,
